@@ -54,6 +54,11 @@ func genConc(r *rand.Rand, n int, separate bool) []Case {
 			case 7:
 				o["op"], o["inherited"] = "search", false
 				o["pattern"] = map[string]interface{}{"k": pick(r, "?v", "x", "y")}
+				if r.Intn(6) == 0 {
+					// a search that ends in an ERROR (the indexed state refuses a pattern without a constant
+					// term, D8): its error path must leave the state's lock as it found it
+					o["pattern"] = map[string]interface{}{"?p": "?v"}
+				}
 			case 8, 9:
 				o["op"], o["id"] = "addrule", "r"+id
 				rule := rulePat(map[string]interface{}{"k": pick(r, "?v", "x", "y")})
